@@ -208,7 +208,10 @@ Definition exec_op (p : prog) (instr : N) (m : vm) : vm * vres :=
              else if instr =? opMUL then
                if (y <? 0)%Z then rt_err p m (bs "MUL: negative repeat count")
                else if (1048576 <? Z.of_N (nlen x) * y)%Z then (m, VPanic PExcluded)   (* excluded: result beyond 2^20 bytes *)
-               else (push (VStr (repeat_bytes (Z.to_nat y) x)) m2, VOk)
+               else match x with
+                    | [] => (push (VStr []) m2, VOk)          (* any count of the empty string *)
+                    | _ => (push (VStr (repeat_bytes (Z.to_nat y) x)) m2, VOk)
+                    end
              else if instr =? opEQ then (push (VBool false) m2, VOk)
              else rt_err p m (invalid_types instr a b)
            | VStr x, VFloat y =>
